@@ -50,6 +50,13 @@ def t_function_shadowed_later(rng, n):
     return ("def fn%d() { 7 }\ndef k%d(b) {\n  if (b) { eval(\"var fn%d = fun() { 9 }\") }\n  fn%d()\n}\n" % (n, n, n, n)) + "\n".join(calls) + "\n"
 
 
+def t_unknown_then_local(rng, n):
+    """recorded finding, third shape: the first evaluation does not find the name at all; a local of that name injected later is ignored"""
+    calls = ["try { print(uk%d(false)) } catch (e) { print(\"not found\") }" % n, "try { print(uk%d(true)) } catch (e) { print(\"not found\") }" % n]
+    calls = [calls[0], calls[1]] + [rng.choice(calls) for _ in range(rng.randrange(0, 2))]
+    return ("def uk%d(b) {\n  if (b) { eval(\"var zz%d = 3\") }\n  return zz%d\n}\n" % (n, n, n)) + "\n".join(calls) + "\n"
+
+
 def t_nearer_binding(rng, n):
     calls = call_orders(rng, ["m%d(false)" % n, "m%d(true)" % n])
     return ("def m%d(b) {\n  var x = 1\n  {\n    var pad = 0\n    if (b) { eval(\"var x = 2\") }\n    print(x + pad)\n  }\n  print(x)\n}\n" % n) + "\n".join(calls) + "\n"
@@ -131,7 +138,7 @@ LAYOUT_CHANGING = [t_function_then_global, t_moved_slot_and_shadow, t_inject_bef
                    t_capture_vs_injected, t_same_name_different_scopes]
 # the only shapes that can legitimately show the two recorded findings: generated alone, never mixed with other templates, so that a
 # difference in any other program is reported whatever the audit hook says
-FINDING_PROBES = [t_global_shadowed_later, t_function_shadowed_later, t_nearer_binding]
+FINDING_PROBES = [t_global_shadowed_later, t_function_shadowed_later, t_nearer_binding, t_unknown_then_local]
 
 STABLE_PROFILE = {"w_try": 2, "top_min": 6, "top_max": 16}
 
@@ -184,6 +191,8 @@ def run(ctx, tier, seed, scale=1.0):
         if diff:
             if kind == "stable":
                 ctx.violation("cache-visible:layout-stable-program:%s" % diff[0], wit)
+            elif kind == "probe:unknown_then_local" and au["global_shadowed"] > 0 and au["nearer_local"] == 0:
+                ctx.violation("cache-visible:not-found-hint:local-declared-later", wit)
             elif probe and au["global_shadowed"] > 0 and au["nearer_local"] == 0 and kind != "probe:nearer_binding":
                 ctx.violation("cache-visible:global-or-function-hint:local-declared-later", wit)
             elif probe and au["nearer_local"] > 0 and au["global_shadowed"] == 0 and kind == "probe:nearer_binding":
